@@ -246,7 +246,7 @@ SEMI_NOTE = ("Harness threads (writers, openers/closers, readers) are scheduled 
 
 prop("C03", "conccheck",
      [dict(name="TestC03", quick=4000, thorough=8000, env=G2)],
-     rule="1-3 rounds per case on one instance (drawn comparator bytes/KV): 2-4 controlled writer threads (one Writer each) run drawn scripts of 1-4 Put2/Delete/GetNode over "
+     rule="1-3 rounds per case on one instance (drawn comparator bytes/KV; a quarter of the cases on an instance restored from a backup, writers created after the load): 2-4 controlled writer threads (one Writer each) run drawn scripts of 1-4 Put2/Delete/GetNode over "
           "2-3 keys (collisions are the norm; later rounds hit keys born or deleted in earlier epochs; older snapshots drawn open or closed) under a drawn schedule (PCT / "
           "random walk over node-level and DeleteNode yield points); after each round NewSnapshot + scan. Oracle: porcupine per key over exact call/return stamps with the "
           "snapshot content as final observation (KV: values tracked), Count() == scan length, no duplicate keys, untouched keys preserved; finally all snapshots closed, "
